@@ -245,9 +245,9 @@ class Gen:
                 args.append([rng.choice(["k", "k", "dec"]), rng.randrange(len(ps)) + 1])
             else:
                 args.append(["c", rng.choice(KEYS[:3])])
-        spell = rng.choice(["pos", "pos", "kw"])
+        spell = rng.choice(["pos", "pos", "kw", "kwr"])
         if len(path) > 1:
-            spell = rng.choice(["pos", "kw", "sub", "value"])
+            spell = rng.choice(["pos", "kw", "kwr", "sub", "value"])
         if spell == "sub" and not args:
             spell = "pos"
         if spell == "value" and args:
@@ -289,6 +289,26 @@ class Gen:
                     return a
             except (IndexError, KeyError, ValueError):
                 pass
+        if self.last_call and w.get("clear_at", 0) and rng.random() < 0.08:
+            # scenario: an element is cleared and computed AGAIN (its dependency edges are
+            # recorded a second time), then something it was computed from is edited
+            try:
+                sc = self.mk_recompute_scenario()
+                if sc:
+                    self.queue.extend(sc[1:])
+                    return sc[0]
+            except (IndexError, KeyError, ValueError):
+                pass
+        if w.get("clear_at", 0) and w.get("set_ref", 0) and rng.random() < 0.05:
+            # scenario: two elements read one reference by attribute path; one of them is
+            # cleared alone; then the reference is edited and the other one asked again
+            try:
+                sc = self.mk_partial_clear_scenario()
+                if sc:
+                    self.queue.extend(sc[1:])
+                    return sc[0]
+            except (IndexError, KeyError, ValueError):
+                pass
         for _ in range(50):
             kind = rng.choices(kinds, [w[k] for k in kinds])[0]
             try:
@@ -299,13 +319,89 @@ class Gen:
                 return op
         return {"op": "set_ref", "s": [], "n": "g0", "v": ["int", 10, [], ""], "mode": "auto"}
 
+    def path_readers(self):
+        """{(space of the reference, name): [(space, cells)]} for direct attribute-path reads
+        by cached cells."""
+        out = {}
+        for p, c in self.cached_cells():
+            frec = self.flib[self.mir["cells"][tp(p)][c]["f"]]
+            for op in frec["ops"]:
+                if op[0] == "read" and len(op[1]) > 1:
+                    for q in self.mir["sp"]:
+                        if op[1][:-1] in self.space_paths(p, q) and op[1][-1] in self.mir["refs"][tp(q)] \
+                                and self.mir["refs"][tp(q)][op[1][-1]]["v"][0] == "int":
+                            out.setdefault((tp(q), op[1][-1]), [])
+                            if (p, c) not in out[(tp(q), op[1][-1])]:
+                                out[(tp(q), op[1][-1])].append((p, c))
+        return out
+
+    def mk_partial_clear_scenario(self):
+        rng = self.rng
+        rd = self.path_readers()
+        if not rd:
+            return None
+        (q, r), readers = rng.choice(sorted(rd.items()))
+        a = rng.choice(readers)
+        b = rng.choice(readers)
+        aa, ba = self.rand_args(a[1], False), self.rand_args(b[1], False)
+        if a == b and aa == ba:
+            if not aa:
+                return None
+            ba = [(aa[0] + 1) % 4] + aa[1:]
+        ca = {"op": "call", "c": [list(a[0]), [], a[1]], "args": aa, "sp": "pos"}
+        cb = {"op": "call", "c": [list(b[0]), [], b[1]], "args": ba, "sp": "pos"}
+        edit = rng.choice([
+            {"op": "set_ref", "s": list(q), "n": r, "v": ["int", rng.choice(INT_VALUES), [], ""],
+             "mode": self.mir["refs"][q][r]["mode"], "via": "attr"},
+            {"op": "del_ref", "s": list(q), "n": r}])
+        return [ca, cb, {"op": "clear_at", "c": [list(a[0]), [], a[1]], "args": aa}, edit, dict(cb), dict(ca)]
+
+    def mk_recompute_scenario(self):
+        lc = self.last_call
+        p, st, c = lc["c"]
+        if st or tp(p) not in self.mir["cells"] or c not in self.mir["cells"][tp(p)]:
+            return None
+        rec = self.mir["cells"][tp(p)][c]
+        ps = self.sigs[c]
+        if not rec["cached"] or len(lc["args"]) != len(ps):
+            return None
+        args = list(lc["args"])
+        frec = self.flib[rec["f"]]
+        edits = []
+        for op in frec["ops"]:
+            if op[0] == "call":
+                tgt = [q for q in self.mir["sp"] if op[1][:-1] in self.space_paths(p, q)
+                       and op[1][-1] in self.mir["cells"][tp(q)]]
+                if not tgt or not self.mir["cells"][tp(tgt[0])][op[1][-1]]["cached"]:
+                    continue
+                cargs = []
+                for a in op[2]:
+                    cargs.append(args[a[1] - 1] if a[0] == "k" else
+                                 args[a[1] - 1] - 1 if a[0] == "dec" else a[1])
+                if len(cargs) == len(self.sigs[op[1][-1]]) and all(x >= 0 for x in cargs):
+                    edits.append({"op": "set_value", "c": [list(tgt[0]), [], op[1][-1]], "args": cargs,
+                                  "v": self.rng.choice([500, 600, 700])})
+            elif op[0] == "read" and len(op[1]) == 1 and op[1][0] in self.mir["refs"][tp(p)]:
+                edits.append({"op": "set_ref", "s": list(p), "n": op[1][0],
+                              "v": ["int", self.rng.choice(INT_VALUES), [], ""],
+                              "mode": self.mir["refs"][tp(p)][op[1][0]]["mode"], "via": "attr"})
+        if not edits:
+            return None
+        call = {"op": "call", "c": [list(p), [], c], "args": args, "sp": "pos"}
+        clr = {"op": "clear_at", "c": [list(p), [], c], "args": args}
+        rounds = self.rng.choice([1, 2, 2, 3])      # (edges re-recorded once, twice, ...)
+        out = []
+        for _ in range(rounds):
+            out += [dict(clr), dict(call)]
+        return out + [self.rng.choice(edits), dict(call)]
+
     def mk_call(self):
         cells = self.all_cells()
         if not cells:
             return None
         p, c = self.rng.choice(cells)
         args = self.rand_args(c)
-        sp = self.rng.choice(["pos", "pos", "kw", "sub", "value"])
+        sp = self.rng.choice(["pos", "pos", "kw", "kwr", "sub", "value"])
         if sp == "sub" and not args:
             sp = "pos"
         if sp == "value" and args:
@@ -472,6 +568,23 @@ class Gen:
                     seen.append([f[1][0], f[1][2]])
             if seen:
                 self.hot = seen
+            # scenario "failure and repair": after a failed evaluation, one element of the
+            # failing chain gets a formula that does not fail, and what succeeded before the
+            # failure is asked again
+            if isinstance(res, int) and res >= -2:
+                self.ok_calls = (getattr(self, "ok_calls", []) + [dict((k, op[k]) for k in ("op", "c", "args", "sp"))])[-3:]
+            elif ev.get("tb") and self.profile == "fail" and self.rng.random() < 0.35:
+                node = self.rng.choice(ev["tb"])[0]
+                if not node[1] and tp(node[0]) in self.mir["cells"] and node[2] in self.mir["cells"][tp(node[0])]:
+                    pr, pn, self.p_raise, self.p_none = self.p_raise, self.p_none, 0.0, 0.0
+                    try:
+                        f = self.formula(node[0], node[2])
+                    finally:
+                        self.p_raise, self.p_none = pr, pn
+                    self.queue.append({"op": "set_formula", "s": list(node[0]), "c": node[2], "f": f,
+                                       "via": "prop"})
+                    self.queue.extend(dict(c) for c in getattr(self, "ok_calls", []))
+                    self.queue.append(dict((k, op[k]) for k in ("op", "c", "args", "sp")))
         if res != "ok":
             return
         m = self.mir
